@@ -38,6 +38,15 @@ def cases(tier, seed):
         out.append({"n": n, "s": rng.choice([2, 3, 4, 5, 8, 12, 20]),
                     "traj": rng.choice(["maximum", "revolve"]),
                     "sample_splits": 5})
+    # many stack positions (> 1000): numeric tie-breaks, sort stability
+    big = [(1500, 1400, "revolve"), (1300, 1150, "maximum"),
+           (2600, 2300, "revolve")] + ([(4200, 4000, "revolve"),
+                                        (6600, 2200, "maximum")] if th
+                                       else [])
+    for n, s_, tr in big:
+        out.append({"n": n, "s": s_, "traj": tr,
+                    "splits": [[0, s_], [50, s_ - 50], [s_ // 2, s_ - s_ // 2],
+                               [s_ - 1, 1], [s_, 0]]})
     rng.shuffle(out)
     return out
 
@@ -117,7 +126,9 @@ def run_case(case, ctx):
                           "action": None, "detail": detail})
 
     splits = [(ram, s - ram) for ram in range(0, s + 1)]
-    if "sample_splits" in case and len(splits) > case["sample_splits"]:
+    if "splits" in case:
+        splits = [tuple(x) for x in case["splits"]]
+    elif "sample_splits" in case and len(splits) > case["sample_splits"]:
         rng = random.Random(n * 31 + s)
         mid = rng.sample(splits[1:-1], case["sample_splits"] - 2)
         splits = [splits[0]] + sorted(mid) + [splits[-1]]
